@@ -13,6 +13,7 @@ mod c12;
 mod c13;
 mod c14;
 mod c15;
+mod c16;
 mod c18;
 mod selectors;
 mod interp;
@@ -49,6 +50,10 @@ fn main() {
             }
         }
     }
+    if id == "C16-child" {
+        c16::child(&tier);
+        return;
+    }
     if id == "C03-child" {
         c03::child(&tier);
         return;
@@ -82,6 +87,7 @@ fn main() {
             "C13" => c13::replay(&v["replay"]),
             "C14" => c14::replay(&v["replay"]),
             "C15" => c15::replay(&v["replay"]),
+            "C16" => c16::replay(&v["replay"]),
             "C18" => c18::replay(&v["replay"]),
             "C12" => c12::replay(&v["replay"]),
             "C11" => c11::replay(&v["replay"]),
@@ -106,6 +112,7 @@ fn main() {
         "C13" => c13::run(&mut run),
         "C14" => c14::run(&mut run),
         "C15" => c15::run(&mut run),
+        "C16" => c16::run(&mut run),
         "C18" => c18::run(&mut run),
         "C12" => c12::run(&mut run),
         "C11" => c11::run(&mut run),
